@@ -79,7 +79,7 @@ def generate(seed: int, tier: str):
     # scales are dyadic so that pos/scale stays exact (DESIGN 6.3 #10: what a non-dyadic scale does to order-0 windows is C02's business)
     return {
         "property": PROPERTY, "seed": seed,
-        "world": {"n_tomo": n_tomo, "shapes": shapes, "storage": storage, "values": rng.choice(["int", "int", "float"]), "tomo_seed": rng.randrange(1 << 30),
+        "world": {"n_tomo": n_tomo, "shapes": shapes, "storage": storage, "values": rng.choice(["int", "int", "float"]), "dtype": rng.choice(["float32", "float32", "float32", "int16", "uint8", "int8"]), "tomo_seed": rng.randrange(1 << 30),
                   "mol_seed": rng.randrange(1 << 30), "n_mol": [rng.randint(2, 5) for _ in range(n_tomo)], "box": [sb, sb, sb] if rng.random() < 0.6 else [rng.choice([3, 4, 5]) for _ in range(3)],
                   "order": rng.choice([0, 1, 1, 3]), "scale": rng.choice([0.5, 1.0, 2.0]), "corner_safe": rng.random() < 0.2,
                   "rot": rng.choice(["identity", "identity", "random"]), "b0": b0,
@@ -105,7 +105,15 @@ def build(w):
     for t in range(w["n_tomo"]):
         shape = tuple(w["shapes"][t])
         if w["values"] == "int":
-            arr = rg.integers(-8, 9, size=shape).astype(np.float32)
+            dt = np.dtype(w.get("dtype", "float32"))
+            if dt == np.uint8:
+                arr = rg.integers(0, 200, size=shape).astype(dt)  # block sums exceed the dtype's range
+            elif dt == np.int8:
+                arr = rg.integers(-100, 101, size=shape).astype(dt)
+            elif dt == np.int16:
+                arr = rg.integers(-3000, 3001, size=shape).astype(dt)
+            else:
+                arr = rg.integers(-8, 9, size=shape).astype(np.float32)
         else:
             arr = rg.normal(size=shape).astype(np.float32)
         st = w["storage"][t]
@@ -198,7 +206,8 @@ def check_binned(w, parent_ld, parent: Node, new_ld, b, compute, row_img, site, 
         if bad:
             idx = np.unravel_index(int(np.argmax(np.abs(val.astype(np.float64) - exp))), exp.shape)
             raise V("not-a-block-sum", site, f"binned image {k!r} differs from the {b}x{b}x{b} block sum, e.g. at {tuple(int(i) for i in idx)}: {val[idx]} vs {exp[idx]}")
-        new_images[k] = exp.astype(np.float32) if w["values"] == "int" else val.astype(np.float32)
+        # the model image keeps the dtype of the binned image (integer tomograms are loaded as integers; that is C02's business)
+        new_images[k] = exp.astype(val.dtype) if w["values"] == "int" else val.astype(np.float32)
     # molecules: same physical location -> same block; everything else unchanged
     pos = np.asarray(new_ld.molecules.pos, dtype=np.float64)
     exp_pos = parent.pos - (b - 1) / 2 * parent.scale
